@@ -1,6 +1,7 @@
 package checks
 
 import (
+	"bytes"
 	"context"
 	"crypto/sha256"
 	"encoding/json"
@@ -40,6 +41,20 @@ type c05Scenario struct {
 	Why     string
 	Init    []wh.Req
 	Threads [][]c05Op
+	// Props: the checks that explore this scenario (C05 explores S1..S6;
+	// the others are the concurrent legs of C01, C03 and C12).
+	Props string
+}
+
+// c05For returns the scenarios a property's check explores.
+func c05For(scs []c05Scenario, prop string) []c05Scenario {
+	var out []c05Scenario
+	for _, s := range scs {
+		if strings.Contains(s.Props, prop) {
+			out = append(out, s)
+		}
+	}
+	return out
 }
 
 type c05Event struct {
@@ -72,17 +87,30 @@ func c05Scenarios(u *uni.U, gen *wh.CPGen, la, lb wh.LogCfg) []c05Scenario {
 	}
 	logs := c05Op{Kind: "logs", Label: "GetLogs"}
 	initA4 := []wh.Req{up(la, m, 0, 4).Req}
+	badProof := func(o c05Op) c05Op {
+		o.Req.Proof = [][]byte{bytes.Repeat([]byte{0x5a}, 32)}
+		o.Label += "+garbage-proof"
+		o.Req.Label = o.Label
+		return o
+	}
 	return []c05Scenario{
-		{Name: "S1", Why: "conflicting first use", Threads: [][]c05Op{{up(la, m, 0, 4)}, {up(la, f0, 0, 4)}, {get(la)}}},
-		{Name: "S2", Why: "two growths from 4, each valid alone, together a split view", Init: initA4,
+		{Name: "S7", Props: "C03", Why: "a refused update (garbage proof, or stale once the other one is in) overlapping an accepted growth", Init: initA4,
+			Threads: [][]c05Op{{up(la, m, 4, 6)}, {badProof(up(la, m, 4, 6))}, {get(la), get(la)}}},
+		{Name: "S8", Props: "C03", Why: "a refused same-size fork (root mismatch) overlapping a refresh and a growth", Init: initA4,
+			Threads: [][]c05Op{{up(la, m, 4, 4), up(la, m, 4, 6)}, {up(la, f0, 4, 4)}, {get(la)}}},
+		{Name: "S9", Props: "C12", Why: "first use of two different logs overlapping", Threads: [][]c05Op{{up(la, m, 0, 4)}, {up(lb, m, 0, 3)}, {logs, get(lb)}}},
+		{Name: "S10", Props: "C12", Why: "growth of two different logs overlapping", Init: []wh.Req{up(la, m, 0, 2).Req, up(lb, m, 0, 3).Req},
+			Threads: [][]c05Op{{up(la, m, 2, 4)}, {up(lb, m, 3, 5)}, {get(la), get(lb)}}},
+		{Name: "S1", Props: "C05 C01", Why: "conflicting first use", Threads: [][]c05Op{{up(la, m, 0, 4)}, {up(la, f0, 0, 4)}, {get(la)}}},
+		{Name: "S2", Props: "C05 C01", Why: "two growths from 4, each valid alone, together a split view", Init: initA4,
 			Threads: [][]c05Op{{up(la, m, 4, 6)}, {up(la, f4, 4, 6)}, {get(la), get(la)}}},
-		{Name: "S3", Why: "growth vs refresh: lost update / regression", Init: initA4,
+		{Name: "S3", Props: "C05", Why: "growth vs refresh: lost update / regression", Init: initA4,
 			Threads: [][]c05Op{{up(la, m, 4, 6)}, {up(la, m, 4, 4)}, {get(la), get(la)}}},
-		{Name: "S4", Why: "different logs must not conflict", Init: []wh.Req{up(la, m, 0, 2).Req},
+		{Name: "S4", Props: "C05 C12", Why: "different logs must not conflict", Init: []wh.Req{up(la, m, 0, 2).Req},
 			Threads: [][]c05Op{{up(la, m, 2, 4)}, {up(lb, m, 0, 3)}, {logs, get(la)}}},
-		{Name: "S5", Why: "fork race plus a later growth (stale-then-retry)", Init: initA4,
+		{Name: "S5", Props: "C05", Why: "fork race plus a later growth (stale-then-retry)", Init: initA4,
 			Threads: [][]c05Op{{up(la, m, 4, 6)}, {up(la, f4, 4, 6)}, {get(la), get(la)}, {up(la, m, 6, 8)}}},
-		{Name: "S6", Why: "two writers, no reader (2 threads, unbounded)", Init: initA4,
+		{Name: "S6", Props: "C05", Why: "two writers, no reader (2 threads, unbounded)", Init: initA4,
 			Threads: [][]c05Op{{up(la, m, 4, 6), get(la)}, {up(la, f4, 4, 6), get(la)}}},
 	}
 }
@@ -576,8 +604,22 @@ func c05Worker(args []string) int {
 
 func c05(tier string) int {
 	run := ev.NewRun("C05", tier, "model_checking")
+	c05Explore(run, "C05", tier)
+	c05RacePass(run, tier)
+	return run.Finish()
+}
+
+// c05Concurrent is the concurrent leg of another property's check: the
+// scenarios tagged with that property, explored exactly as C05 explores its
+// own (bounded DFS + unbounded pruned search, porcupine oracle).
+func c05Concurrent(run *ev.Run, prop, tier string) {
+	c05Explore(run, prop, tier)
+}
+
+func c05Explore(run *ev.Run, prop, tier string) {
 	u, gen, la, lb := c05Universe()
-	scs := c05Scenarios(u, gen, la, lb)
+	scs := c05For(c05Scenarios(u, gen, la, lb), prop)
+	own := prop == "C05"
 	type job struct {
 		sc      string
 		store   string
@@ -748,6 +790,24 @@ func c05(tier string) int {
 			run.Vacuous("scenario %s produced a single outcome over all schedules (nothing collided)", key)
 		}
 	}
+	if !own {
+		run.Set("concurrent_outcomes", perScen)
+		run.Add("concurrent_schedules", total)
+		run.Add("concurrent_states_expanded_unbounded", statesTotal)
+		run.Add("transitions", total)
+		run.Add("traces_validated_against_impl", total)
+		run.Add("evaluations", total)
+		var names []string
+		for _, s := range scs {
+			names = append(names, s.Name+": "+s.Why)
+		}
+		run.Set("concurrent_scenarios", names)
+		run.Set("concurrent_rule", "the scenarios above explored with the C05 engine: every interleaving of the real calls at storage-operation and lock granularity up to preemption bound 2, plus the complete unbounded search with visited-state pruning; every execution checked with porcupine against wmodel")
+		if !exh {
+			run.Set("concurrent_capped", true)
+		}
+		return
+	}
 	run.Set("outcomes", perScen)
 	run.Set("states", int(total+statesTotal))
 	run.Set("distinct_states_expanded_in_unbounded_runs", statesTotal)
@@ -759,8 +819,6 @@ func c05(tier string) int {
 	run.Set("rule", "stateless DFS over all interleavings of real Witness.Update / GetCheckpoint / GetLogs calls at storage-operation granularity (lspwrap points before every LogStatePersistence / handle method) and, in the in-memory store, lock granularity (vsync shim: every Lock/RLock is a point, a thread that cannot take the lock is disabled), on the in-memory store and on SQLite with the production single-connection pool (a call that needs the pooled connection is disabled while drvwrap reports it busy); iterative preemption bounding, bound per scenario in preemption_bound[...]; IN ADDITION every 2- and 3-thread scenario is explored with NO preemption bound using visited-state pruning (state key = per-thread program point and hash of everything the thread has observed from the store, mirror of the store content by checkpoint identity, and the full call/return history with outputs - so two merged states have the same futures and the same linearizability verdict; checked empirically: on the 2-thread scenario the pruned run (658 executions) and the unpruned run (167 154) produce the same outcome set), see unbounded_pruned[...]; every complete execution checked with porcupine against wmodel (storage error with no effect allowed only for an update overlapping another update of the same log), monotone reads, no deadlock. 'states'/'transitions' count complete schedules; distinct_nontrivial = distinct (scenario, store, outcome vector)")
 	run.Assumption("interleavings of storage and lock operations, not of arbitrary memory accesses; unsynchronised accesses are left to the supplementary free-running -race pass")
 	run.Assumption("each violating schedule is re-executed 5 times with identical observations before it is reported")
-	c05RacePass(run, tier)
-	return run.Finish()
 }
 
 func lastLine(b []byte) []byte {
